@@ -5,6 +5,8 @@ Sources (read from vlib.REPO on every run):
   ipv8/attestation/identity/database.py   class IdentityDatabase   every method named insert_*
   ipv8/attestation/wallet/database.py     class AttestationsDB     every method named insert_*
   ipv8/database.py                        class Database           commit, _prepare_version, _connect
+  ipv8/attestation/identity/manager.py    class PseudonymManager   __init__ (the loop that reloads the stored tokens)
+  ipv8/attestation/tokentree/tree.py      class TokenTree          unchained_max_size (only if the loop uses gather_token)
 
 Supported subset of an insert_* / commit body (anything else raises TranslatorError = broken obligation):
   docstring; `self._assert(...)`, `self._logger.<x>(...)`                      -> skipped
@@ -316,6 +318,47 @@ def version_handlers(base_cls) -> list[str]:
     return kinds
 
 
+MANAGER = "ipv8/attestation/identity/manager.py"
+TREE = "ipv8/attestation/tokentree/tree.py"
+
+
+def reload_mode() -> tuple[str, dict]:
+    """PseudonymManager.__init__: the loop over self.database.get_tokens_for(self.public_key) must have one of the two
+    recognised bodies; the buffer bound is the integer literal assigned to self.unchained_max_size in TokenTree"""
+    tree = ast.parse((REPO / MANAGER).read_text())
+    cls = _class(tree, "PseudonymManager", MANAGER)
+    init = next((n for n in cls.body if isinstance(n, ast.FunctionDef) and n.name == "__init__"), None)
+    if init is None:
+        raise TranslatorError("PseudonymManager.__init__ not found")
+    loops = [n for n in ast.walk(init) if isinstance(n, ast.For) and "get_tokens_for" in ast.unparse(n.iter)]
+    if len(loops) != 1:
+        raise TranslatorError(f"PseudonymManager.__init__: {len(loops)} loops over get_tokens_for")
+    loop = loops[0]
+    if ast.unparse(loop.iter) != "self.database.get_tokens_for(self.public_key)" or loop.orelse \
+            or not isinstance(loop.target, ast.Name):
+        raise TranslatorError(f"reload loop iterates over `{ast.unparse(loop.iter)[:80]}`")
+    var = loop.target.id
+    if len(loop.body) != 1:
+        raise TranslatorError("reload loop body is not a single statement")
+    body = ast.unparse(loop.body[0])
+    if "get_credentials_for(self.public_key)" not in ast.unparse(init):
+        raise TranslatorError("PseudonymManager.__init__ no longer loads the credentials")
+    if body == f"self.tree.elements[{var}.get_hash()] = {var}":
+        return ".direct", {"mode": "direct"}
+    if body == f"self.tree.gather_token({var})":
+        ttree = ast.parse((REPO / TREE).read_text())
+        tcls = _class(ttree, "TokenTree", TREE)
+        cap = None
+        for n in ast.walk(tcls):
+            if isinstance(n, ast.Assign) and len(n.targets) == 1 and _is_self_attr(n.targets[0], "unchained_max_size") \
+                    and isinstance(n.value, ast.Constant) and isinstance(n.value.value, int):
+                cap = n.value.value
+        if cap is None:
+            raise TranslatorError("TokenTree.unchained_max_size is not an integer literal")
+        return f".gather {cap}", {"mode": "gather", "cap": cap}
+    raise TranslatorError(f"reload loop body not recognised: {body[:80]}")
+
+
 def lean_prim(p) -> str:
     if p[0] == "exec":
         return f".exec {p[1]} .{p[2]}"
@@ -426,6 +469,7 @@ def translate() -> tuple[str, dict]:
         for s in stmts:
             ls.append(f".createTable {s[1]}" if s[0] == "createTable" else "." + s[0])
         lean_scripts.append((clsname, ls, [tr.tid(n) for n in tinfo]))
+    reload_lean, meta["reload"] = reload_mode()
     meta["table_names"] = list(tr.tables)
     meta["column_names"] = list(tr.columns)
 
@@ -461,6 +505,9 @@ def translate() -> tuple[str, dict]:
                 ""]
     out += ["/-- exception kinds caught (and not re-raised) around the version-row read in Database._prepare_version -/",
             f"def versionHandlers : List ExcKind := {lean_list(['.' + h for h in handlers])}",
+            "",
+            "/-- how PseudonymManager.__init__ puts the stored tokens back into the tree -/",
+            f"def reloadMode : ReloadMode := {reload_lean}",
             "",
             "/-- Database._connect leaves python's implicit transactions on (no autocommit) -/",
             f"def connectAutocommit : Bool := {'true' if meta['connect_autocommit'] else 'false'}",
